@@ -640,3 +640,11 @@ impl<'a, Lookup: Fn(u16) -> Option<AsRoutingInterfaceState>> AdvanceValidator
         }
     }
 }
+
+#[cfg(kani)]
+#[path = "/verif/kani/pocketscion/routing_standard.rs"]
+mod verif_routing_standard;
+
+#[cfg(kani)]
+#[path = "/verif/kani/pocketscion/routing_step.rs"]
+mod verif_routing_step;
